@@ -349,3 +349,7 @@ CLAIMS["C15"]["text"] += (" Bus construction is a generated dimension: half of a
 CLAIMS["C15"]["note"] += (" The tracer's values are not judged (metrics are outside the statement). A panic inside Emit is reported as a process crash of the shard, because the panicking emit keeps its node lock.")
 CLAIMS["C14"]["text"] += (" Tag values are generated over the whole int range (TagPeer, UpsertTag and decaying bumps near MaxInt, MinInt, +-MaxInt/2 or any int) and a bounded-exhaustive sweep covers totals {MinInt .. MaxInt}; peers whose totals differ by more than MaxInt must still be pruned in plain numeric order.")
 CLAIMS["C14"]["note"] += (" A peer whose int tag values sum outside the int range has no reportable total: its rank in a trim is not judged (labelled, about 2 % of cases).")
+
+CLAIMS["C13"]["text"] += (" Service lifecycle and address-book capacity are generated dimensions: the identify service may be closed (IDService.Close) at any point of the history while connections and the peerstore live on, and in 40 % of the cases the in-memory address book runs at or near a small global limit of unconnected addresses (WithMaxAddresses 4/16/64). "
+    "In both, the peer's addresses must still lose the connected lifetime after the last connection closes, and the per-peer caps must hold across pushes.")
+CLAIMS["C13"]["note"] += (" At its global limit the address book may drop or refuse addresses; the oracle only forbids keeping them at the connected lifetime without a connection. After Close the harness keeps using IdentifyWait and the installed stream handlers, as a host's other components may.")
